@@ -273,6 +273,8 @@ type listener struct {
 }
 
 func (l *listener) SetOption(n string, v interface{}) error {
+	l.lock.Lock()
+	defer l.lock.Unlock()
 	switch n {
 	case OptionWebSocketCheckOrigin:
 		if v, ok := v.(bool); ok {
@@ -287,6 +289,8 @@ func (l *listener) SetOption(n string, v interface{}) error {
 }
 
 func (l *listener) GetOption(n string) (interface{}, error) {
+	l.lock.Lock()
+	defer l.lock.Unlock()
 	switch n {
 	case OptionWebSocketMux:
 		return l.mux, nil
@@ -315,6 +319,10 @@ func (l *listener) Listen() error {
 	var err error
 	var tcfg *tls.Config
 
+	// The lock is held across the closed check and the bind, so that
+	// a concurrent Close either sees the listener or prevents it.
+	l.lock.Lock()
+	defer l.lock.Unlock()
 	if l.closed {
 		return mangos.ErrClosed
 	}
@@ -357,9 +365,10 @@ func (l *listener) Listen() error {
 	l.bound = l.listener.Addr().(*net.TCPAddr)
 
 	l.htsvr = &http.Server{Addr: l.url.Host, Handler: l.mux}
+	htsvr, lis := l.htsvr, l.listener
 
 	go func() {
-		_ = l.htsvr.Serve(l.listener)
+		_ = htsvr.Serve(lis)
 	}()
 
 	return nil
@@ -467,8 +476,9 @@ func (l *listener) ServeHTTP(w http.ResponseWriter, r *http.Request) {
 		http.Error(w, "No handler at that address", http.StatusNotFound)
 		return
 	}
+	ug := l.ug // SetOption may change the origin check concurrently
 	l.lock.Unlock()
-	ws, err := l.ug.Upgrade(w, r, nil)
+	ws, err := ug.Upgrade(w, r, nil)
 	if err != nil {
 		return
 	}
@@ -476,6 +486,8 @@ func (l *listener) ServeHTTP(w http.ResponseWriter, r *http.Request) {
 }
 
 func (l *listener) Address() string {
+	l.lock.Lock()
+	defer l.lock.Unlock()
 	if l.anon {
 		u := l.url
 		u.Host = fmt.Sprintf("%s:%d", u.Hostname(), l.bound.Port)
